@@ -154,6 +154,23 @@ def run_item(item):
                     res['extra']['cvc5_cross_checks'] = res['extra'].get('cvc5_cross_checks', 0) + 1
                     if got != expect:
                         res['error'] = 'solver disagreement: z3 says %s, cvc5 says %s on an oracle query of %s' % (expect, got, item['name'])
+                ts = res['extra'].setdefault('tracestats', {})
+                nd = 0
+                for t in sc.trace:
+                    if t[0] == 'dtor':
+                        ts['dtor'] = ts.get('dtor', 0) + 1
+                        nd += 1
+                    elif t[0] == 'op':
+                        if nd >= 2:
+                            ts['multi_destroy_ops'] = ts.get('multi_destroy_ops', 0) + 1
+                        nd = 0
+                    elif t[0] == 'ret':
+                        key = '%s:%s' % (t[1], t[2]) if t[1] in ('upgrade', 'catch', 'try_unwrap', 'make_mut', 'get_mut') else t[1]
+                        ts[key] = ts.get(key, 0) + 1
+                    elif t[0] in ('cost', 'abort', 'uncaught-panic', 'tclone'):
+                        ts[t[0]] = ts.get(t[0], 0) + 1
+                if nd >= 2:
+                    ts['multi_destroy_ops'] = ts.get('multi_destroy_ops', 0) + 1
                 kind, exc = out
                 accept = item.get('accept_props') or [target]
                 if kind == 'violation' and exc.prop not in accept:
@@ -467,6 +484,10 @@ def run(prop, tier, seed, a, scratch, t_start):
     errors = [r for r in results if r.get('error')]
     extra = {}
     extra['vacuity_witnesses'] = sum(1 for r_ in results if r_.get('extra', {}).get('witness_violations'))
+    tstats = collections.Counter()
+    for r_ in results:
+        tstats.update(r_.get('extra', {}).get('tracestats', {}))
+    extra['reached'] = dict(tstats)
     extra['cvc5_cross_checks'] = sum(r_.get('extra', {}).get('cvc5_cross_checks', 0) for r_ in results)
     if spec.get('finish'):
         extra = spec['finish'](tier, seed, P, native, results, scratch) or {}
@@ -482,6 +503,11 @@ def run(prop, tier, seed, a, scratch, t_start):
     vac = spec.get('vacuity')
     if vac and not a.only and not a.limit:
         msg = vac(results, extra)
+        if not msg and not viols:
+            tot = sum(r_['paths'] for r_ in results)
+            foreign = sum(v_ for r_ in results for k_, v_ in r_.get('outcomes', {}).items() if k_.startswith('foreign'))
+            if tot and foreign > 0.25 * tot:
+                msg = '%d of %d paths were cut short by an oracle or monitor that belongs to another property' % (foreign, tot)
         if msg:
             print('INCONCLUSIVE property=%s reason=vacuity witness failed: %s' % (prop, msg))
             write_evidence(prop, tier, seed, spec, results, nval, t_start, P, inconclusive='vacuous: ' + msg, extra=extra)
